@@ -35,10 +35,11 @@
 (*   value, or was undone).                                                *)
 (*                                                                         *)
 (* ModelOK is a statement about the MECHANISM.  The reference predicate    *)
-(* R_C14 (ThreadsRef.tla) is about OBSERVABLES only (outcomes and the projected tree), so   *)
-(* a state with ~ModelOK is a CANDIDATE: TLC exports the interleaving      *)
-(* (TLCExt!Trace), the harness replays it on real threads through the gate *)
-(* and R_C14 judges what really happened.                                  *)
+(* R_C14 (ThreadsRef.tla) is about OBSERVABLES only (outcomes and the      *)
+(* projected tree), so a state with ~ModelOK is a CANDIDATE: TLC exports   *)
+(* the interleaving (TLCExt!Trace), the harness replays it on real threads *)
+(* through the gate and R_C14 judges what really happened.  A correct lazy *)
+(* cache or a lock is ~ModelOK in some state and satisfies R_C14.          *)
 (***************************************************************************)
 EXTENDS Integers, Sequences, FiniteSets, TLC, TLCExt, Json, ThreadsData
 
